@@ -16,7 +16,7 @@ ID = "C07"
 LEVEL = "exploration"
 TECHNIQUE = "runtime monitor: cross-process differential digests (hash seed, process history, pauses, wall-clock speed varied) + per-fire delivery-order check"
 RULE = ("each case is a batch of 6 generated stochastic programs (float/int/Duration clocks, seeded streams, stochastic "
-        "delays, simulation statistics, 1-2 fan-out event types with 2-4 listeners each) executed by 8 child "
+        "delays, simulation statistics, 1-2 fan-out event types with 2-4 listeners each, in half of them fresh listeners subscribed to the simulator's warm-up notification in construct_model) executed by 8 child "
         "interpreters: PYTHONHASHSEED in {0, 1, 4242, 7, random} x prior activity in {none, 3000 events, objects + "
         "unrelated replication} x pauses x injected sleeps x bounded chunks (run_up_to, last chunk beyond the end) x earlier replications of the same experiment (half of the programs run as replication r with persistent streams re-seeded by a stream updater); non-trivial = program with >= 10 executed events, >= 4 "
         "listener deliveries and >= 2 listener draws; distinct = canonical program hash")
@@ -41,6 +41,11 @@ def gen_case(rng, tier, i):
                         horizon=rng.choice([20, 50]))
         add_streams(rng, p, n_draw=8)
         add_fanout(rng, p)
+        if rng.random() < 0.5:
+            from vlib.proggen import add_simlisteners
+            # (only the warm-up notification: which TIME_CHANGED notifications a run produces depends on its segmentation
+            # into bounded chunks by design, and START notifications on the pauses)
+            add_simlisteners(rng, p, ("WARMUP_EVENT",))
         if rng.random() < 0.8:
             add_stats(rng, p, watch=False)
         if k % 2 == 1:
